@@ -2,3 +2,8 @@ import GoImap.Props.C19
 #print axioms GoImap.C19.flat_and
 #print axioms GoImap.C19.matches_and
 #print axioms GoImap.C19.legacy_and_counterexample
+#print axioms GoImap.C19.fold_keys
+#print axioms GoImap.C19.perm_invariant
+#print axioms GoImap.C19.smaller_zero_counterexample
+#print axioms GoImap.C19.larger_zero_counterexample
+#print axioms GoImap.C19.zero_date_counterexample
